@@ -337,6 +337,21 @@ Proof.
   unfold formatted_text. rewrite El, (GrammarProg.roundtrip p toks Hok Hk), E. reflexivity.
 Qed.
 
+(* from a document, with the kinds of the formatted text: the canonical kinds of [kept p] *)
+Theorem document_kept p doc toks ins ts :
+  prog_ok p = true -> aprog_valid p = true -> lex doc = Some toks -> map tk toks = flatten p ++ [Eof] ->
+  exists txt toks',
+    formatted_text doc ins ts = Done txt /\ lex txt = Some toks' /\ map tk toks' = map canon (flatten (kept p)) ++ [Eof].
+Proof.
+  intros Hok Hv El Hk.
+  destruct (total_any p toks (options_of ins ts) Hk) as (txt & E).
+  pose proof E as Ht. rewrite <- (fmt_kept p toks _ _ Hk (mk_tok_kinds _)) in Ht.
+  destruct (tokens_lead (kept p) _ _ txt (options_unit_ok ins ts) (kept_lead_only p Hv) (kept_valid p Hv) (mk_tok_kinds _) Ht)
+    as (toks' & El' & Ek & _).
+  exists txt, toks'. split; [|split; [exact El' | exact Ek]].
+  unfold formatted_text. rewrite El, (GrammarProg.roundtrip p toks Hok Hk), E. reflexivity.
+Qed.
+
 (* C11: formatting the text printed for ANY valid program answers null *)
 Theorem idempotent_any p toks ins ts txt :
   prog_ok p = true -> aprog_valid p = true -> map tk toks = flatten p ++ [Eof] ->
